@@ -25,3 +25,10 @@ package filters
 //@   loop 0: invariant [only_removes] forall k string :: {k in headers} (k in headers) ==> old(k in headers)
 //@   loop 0: invariant [other_maps] forall m2 map[string][]string :: {mapdom(m2)} {mapval(m2)} m2 != headers ==> mapdom(m2) == old(mapdom(m2)) && mapval(m2) == old(mapval(m2))
 //@   loop 0: invariant [others_kept] forall k string :: {k in headers} !hasPrefix(k, "Impersonate-") ==> ((k in headers) == old(k in headers)) && headers[k] === old(headers[k])
+
+// Every chunk of a proxied response is written through this wrapper: it hands the underlying writer exactly the bytes it
+// was given, once, and reports that writer's result (C04: the upstream's body is relayed unchanged).
+//@ func (*responseWriterWrapper).Write props C04
+//@   requires [w] w != nil && w.throughputMonitor != nil
+//@   modifies *
+//@   ensures [relayed_unchanged] rwcount == old(rwcount) + 1 && rwlast === b && result == rwn && result1 == rwerr
